@@ -721,10 +721,16 @@ func (w *e2eWorld) doCut(c *simConn) {
 	lo := c.readPos
 	c.cut = true
 	c.cutLimit = ch.Range(lo, len(c.delivered), "cut offset")
-	if ch.Chance(1, 2, "opaque error") {
+	switch ch.Weighted([]int{3, 3, 1, 1}, "cut error kind") {
+	case 0:
 		c.cutErr = newInjected(fmt.Sprintf("conn%d reset by peer", c.id))
-	} else {
+	case 1:
 		c.cutErr = io.ErrUnexpectedEOF
+	case 2:
+		// what http.Client.Timeout / ResponseHeaderTimeout report while the caller's context is alive
+		c.cutErr = &timeoutLikeError{what: fmt.Sprintf("conn%d", c.id)}
+	case 3:
+		c.cutErr = newInjectedAs(fmt.Sprintf("conn%d cut", c.id), disguises[ch.Intn(len(disguises), "cut error sentinel")])
 	}
 	where := "between events"
 	if c.cutLimit < len(c.delivered) {
